@@ -239,8 +239,7 @@ theorem handleUpdated_preserves (f : Key) : Preserves FilesOK (fun s => s.handle
   · rw [if_pos h1] at h; exact markConsumersPending_preserves f s s' hp h
   · rw [if_neg h1] at h
     by_cases h2 : s.fileState? f = some .planned ∨ s.fileState? f = some .outdated
-    · rw [if_pos h2] at h
-      exact bind_ok h (fun s1 h1 => pendCreator_preserves f s s1 hp h1) (markConsumersPending_preserves f)
+    · rw [if_pos h2] at h; exact pendCreator_preserves f s s' hp h
     · rw [if_neg h2] at h
       simp only [pure, Except.pure, Except.ok.injEq] at h; subst h; exact hp
 
